@@ -552,7 +552,12 @@ def convertOptions (tbl : List OptionRow) (dflt : Nat → Val DT) :
     | .ok acc => convertOptions tbl acc r
 
 /-- the media handler: `calculate_options(mode, flask.request.args, stream)`
-(requesthandler/base.py:84-111) applied to a media URL -/
+(requesthandler/base.py:84-116) applied to a media URL.  Not modelled: the
+value validation `check_option_values` that runs after parsing on the manifest
+*and* the media side (it rejects unusable values with a ValueError → 400, and
+replaces an empty `start` by the default; it never changes any other value),
+`remove_unsupported_features` (manifest side only) and the `mode` field taken
+from the URL path – all three are covered by the `opt_e2e` correspondence. -/
 def mediaOptions (tbl : List OptionRow) (dflt : Nat → Val DT) (url : Bytes) :
     Except Err (Nat → Val DT) :=
   convertOptions C tbl dflt (firstOnly (parseQsl (queryOf url)))
